@@ -48,8 +48,19 @@ func (e *Eng) localSec(t Value) *Term {
 }
 
 func (e *Eng) calendar(name string, t Value, lo, hi int64) *Term {
-	r := e.tb.UF("time."+name, 64, e.localSec(t))
-	e.assertPC(e.tb.And(e.tb.Sle(e.tb.I64(lo), r), e.tb.Sle(r, e.tb.I64(hi))))
+	tb := e.tb
+	ls := e.localSec(t)
+	r := tb.UF("time."+name, 64, ls)
+	e.assertPC(tb.And(tb.Sle(tb.I64(lo), r), tb.Sle(r, tb.I64(hi))))
+	if name == "day" {
+		// a real calendar day: day <= days in (month, year)
+		mo := tb.UF("time.month", 64, ls)
+		yr := tb.UF("time.year", 64, ls)
+		is := func(m int64) *Term { return tb.Eq(mo, tb.I64(m)) }
+		leap := tb.Eq(tb.Bin(OpAnd, yr, tb.I64(3)), tb.I64(0)) // 1950..2049: every 4th year incl. 2000
+		dim := tb.Ite(is(2), tb.Ite(leap, tb.I64(29), tb.I64(28)), tb.Ite(tb.Or(is(4), is(6), is(9), is(11)), tb.I64(30), tb.I64(31)))
+		e.assertPC(tb.And(tb.Sle(r, dim), tb.Sle(tb.I64(1), mo), tb.Sle(mo, tb.I64(12)), tb.Sle(tb.I64(1950), yr), tb.Sle(yr, tb.I64(2049))))
+	}
 	return r
 }
 
